@@ -289,9 +289,14 @@ var markSeq int
 func mark(t *rapid.T, v any, n *int) any {
 	switch x := v.(type) {
 	case string:
-		switch rapid.IntRange(0, 3).Draw(t, "mk") {
+		switch rapid.IntRange(0, 4).Draw(t, "mk") {
 		case 0:
 			return x
+		case 4:
+			// well-shaped for a format but not a member of it: validators that go beyond the shape
+			// (calendar, ranges, checksums) see these
+			*n++
+			return fmt.Sprintf(rapid.SampledFrom([]string{"19%02d-02-30", "19%02d-04-31", "20%02d-02-29T10:00:00Z", "20%02d-13-01", "19%02d-06-15T25:61:00Z", "999.%d.1.1", "zq%d@", "fe80::%d::1", "%08d-0000-0000-0000-00000000000g"}).Draw(t, "shaped"), 10+*n%80)
 		case 1:
 			*n++
 			return fmt.Sprintf("%s%dSECRET%s", markPrefix, *n, x) // keeps the original as a suffix (may still match patterns)
